@@ -207,6 +207,23 @@ func LeaveSilent(at, p, steps int) *Scenario {
 	return &Scenario{Name: fmt.Sprintf("leavesilent@%d", p), Cfg: sim.Config{N: 5}, Seed: seed, CountsPremise: true}
 }
 
+// BigTx: n validators; before every exchange the initiating validator's application submits a transaction of
+// `kib` KiB (distinct contents), so that every event carries a large payload.
+func BigTx(n, steps, kib int) *Scenario {
+	var seed []Action
+	k := 0
+	for _, a := range FairSeed(seq(n), steps, 0) {
+		body := make([]byte, kib*1024)
+		for i := range body {
+			body[i] = byte('a' + (i+k)%23)
+		}
+		seed = append(seed, Action{K: "T", A: a.A, Tx: fmt.Sprintf("big-%d-%d-", a.A, k) + string(body)})
+		seed = append(seed, a)
+		k++
+	}
+	return &Scenario{Name: fmt.Sprintf("bigtx%d-%dk", n, kib), Cfg: sim.Config{N: n}, Seed: seed}
+}
+
 // Burst: the static scenario in which, after `at` steps, validator 0's application submits k transactions in a row
 // (all pending when it records its next event) and, a few steps later, validator 1's application does the same.
 func Burst(n, at, k, steps int) *Scenario {
